@@ -23,6 +23,11 @@ from .protocol import GeminiServerProtocol
 
 logger = get_logger(__name__)
 
+# Time allowed for completing the TLS handshake, in seconds. asyncio only
+# supervises handshakes of listeners created with ssl=...; this protocol does
+# the handshake itself, so it needs its own deadline.
+HANDSHAKE_TIMEOUT = 30.0
+
 
 class TLSServerProtocol(asyncio.Protocol):
     """Wraps GeminiServerProtocol with manual PyOpenSSL TLS handling.
@@ -71,6 +76,9 @@ class TLSServerProtocol(asyncio.Protocol):
         # Peer address for logging
         self._peer_name: tuple[str, int] | None = None
 
+        # Deadline for the TLS handshake
+        self._handshake_timer: asyncio.TimerHandle | None = None
+
     def connection_made(self, transport: asyncio.BaseTransport) -> None:
         """Initialize TLS connection when TCP connection is established.
 
@@ -84,10 +92,32 @@ class TLSServerProtocol(asyncio.Protocol):
         self.tls_conn = SSL.Connection(self.ssl_context, None)
         self.tls_conn.set_accept_state()
 
+        # A peer that stays silent before or during the handshake is dropped
+        try:
+            loop = asyncio.get_running_loop()
+            self._handshake_timer = loop.call_later(
+                HANDSHAKE_TIMEOUT, self._handle_handshake_timeout
+            )
+        except RuntimeError:
+            # No event loop running (probably in tests)
+            self._handshake_timer = None
+
         logger.debug(
             "tls_connection_started",
             client_ip=self._peer_name[0] if self._peer_name else "unknown",
         )
+
+    def _cancel_handshake_timer(self) -> None:
+        """Cancel the handshake deadline, if armed."""
+        if self._handshake_timer:
+            self._handshake_timer.cancel()
+            self._handshake_timer = None
+
+    def _handle_handshake_timeout(self) -> None:
+        """Close a connection whose TLS handshake did not complete in time."""
+        self._handshake_timer = None
+        if not self.handshake_complete:
+            self._close_with_error("TLS handshake timeout")
 
     def data_received(self, data: bytes) -> None:
         """Handle incoming encrypted data.
@@ -119,6 +149,7 @@ class TLSServerProtocol(asyncio.Protocol):
         try:
             self.tls_conn.do_handshake()
             self.handshake_complete = True
+            self._cancel_handshake_timer()
 
             logger.debug(
                 "tls_handshake_complete",
@@ -248,6 +279,7 @@ class TLSServerProtocol(asyncio.Protocol):
         Args:
             exc: Exception if connection closed due to error, None for clean close.
         """
+        self._cancel_handshake_timer()
         if self.inner_protocol:
             self.inner_protocol.connection_lost(exc)
 
